@@ -145,7 +145,7 @@ def run_sharded(cases, mode, side, nshards=None, hx=None, toy=False, timeout=300
                 cmd = [hx or HX, "run", f, mode]
             else:
                 env = ENV
-                m = {"plain": [], "crash-all": ["--crash-all"], "fault-all": ["--fault-all"]}.get(mode)
+                m = {"plain": [], "crash-all": ["--crash-all"], "fault-all": ["--fault-all"], "damage-all": ["--damage-all"], "powerloss-all": ["--powerloss-all"]}.get(mode)
                 if m is None and mode.startswith("fault:"):
                     m = ["--fault", mode.split(":")[1]]
                 cmd = [DRIVER] + (["--toy"] if toy else ["--oracle", f"{hx or HX} hashd"]) + m + [f]
